@@ -24,6 +24,8 @@ mod grid;
 mod avro;
 #[path = "../c17rfc.rs"]
 mod rfc;
+#[path = "../c17hand.rs"]
+mod hand;
 
 // ------------------------------------------------------------------------------------------------ shared helpers
 pub fn split_rows(t: &mut Tape, rows: usize) -> Vec<(usize, usize)> {
@@ -155,6 +157,11 @@ fn sub_csv(c: &mut Case) -> CaseResult {
         }
     }
     let sentinel = o.null.clone().unwrap_or_default();
+    if !o.double_quote && !c.strict && sentinel.as_bytes().contains(&o.escape) {
+        // known finding (escape character written unescaped) also hits a sentinel containing the escape character
+        c.exclude("csv-escape-char-in-data");
+        o.escape = if o.escape == b'~' { b'\\' } else { b'~' };
+    }
     let specials: Vec<String> = {
         let mut v = vec![(o.delimiter as char).to_string(), (o.quote as char).to_string(), (o.escape as char).to_string()];
         if !sentinel.is_empty() {
@@ -224,6 +231,15 @@ fn sub_csv(c: &mut Case) -> CaseResult {
             }
         }
         cols.push(col);
+    }
+    // a UTF-8 byte order mark at the very start of the input is consumed by the CSV reader (csv-core): the first
+    // field of a header-less file must not begin with U+FEFF
+    if !o.header && rows > 0 {
+        if let LValue::Str(s) = &mut cols[0][0] {
+            if s.starts_with('\u{feff}') {
+                s.insert(0, 'a');
+            }
+        }
     }
     let schema = schema_of(&fields, None);
     let splits = split_rows(&mut c.tape, rows);
@@ -301,7 +317,7 @@ fn sub_json(c: &mut Case) -> CaseResult {
     let cfg = json_type_cfg();
     let strict = c.strict;
     // known finding: a null FixedSizeList row whose item type is a non-nullable nested type cannot be read back
-    let fsl_nested = |ty: &LType| ty.any(&|x| matches!(x, LType::FixedList(f, _) if !f.nullable && f.ty.is_nested()));
+    let fsl_nested = |ty: &LType| ty.any(&|x| matches!(x, LType::FixedList(f, _) if !f.nullable && (f.ty.is_nested() || matches!(f.ty, LType::Ree { .. }))));
     let fields = gen_fields(&mut c.tape, &cfg, ncols, &|ty| (json_type_ok(ty) && !fsl_nested(ty)) || (strict && !ty.any(&|x| matches!(x, LType::Union { .. } | LType::Dict { .. }))));
     let rows = gen_rows(&mut c.tape);
     let vcfg = ValCfg { nan: false, max_str: 16, max_list: 4, ..ValCfg::default() };
@@ -435,6 +451,7 @@ fn main() {
     )
     .assume("type grids per format are committed data (c17grid.rs), determined on the unchanged tree and reviewed against the writer/reader sources: inside = both sides accept and values round-trip, outside = rejected cleanly by writer or reader")
     .assume("CSV: null sentinel differs from every valid value's text; with the default/empty sentinel no string value is empty; reader configured with the writer's delimiter/quote/escape(only when double_quote=false)/terminator/header/null regex ^sentinel$")
+    .assume("CSV: a header-less file does not start with U+FEFF (csv-core consumes a leading UTF-8 byte order mark)")
     .assume("CSV: QuoteStyle::Never only with text free of delimiter/quote/line breaks and never an empty single-column record; whitespace-trimming writer options are lossy by design and not used")
     .assume("CSV/JSON: custom date/time formats restricted to the ISO-like forms arrow_cast::parse::string_to_datetime documents (T or space separator, optional fraction, numeric offset); timestamps with zone are written with their offset")
     .assume("CSV/JSON: floats exclude NaN (CSV additionally allows +-inf, which the writer prints as inf/-inf and the parser accepts); JSON floats finite (non-finite are written as null by design); float text compared bitwise after parse; Float16 goes through f32 text")
@@ -443,15 +460,17 @@ fn main() {
     .assume("Avro: build with arrow-avro default features (no avro_custom_types/small_decimals): read-back types follow the documented mapping (Int8/16,UInt8/16->Int32; UInt32/UInt64->Int64 with values <= i64::MAX; Float16->Float32; Date64->Timestamp(ms); Time32(s)->Time32(ms); Time64(ns)->Time64(us) truncating; Timestamp(s)->Timestamp(ms); zone->+00:00; Duration->Int64; Interval(*)->Interval(MonthDayNano) for non-negative whole-millisecond values; Large/View->plain; list flavours->List; run-end->values; Utf8->Utf8View with with_utf8_view)")
     .assume("Avro: OCF sync marker is random, only decoded content is compared; enum = Dictionary(Int32,Utf8) whose dictionary equals the declared symbols; uuid = FixedSizeBinary(16) with logicalType metadata; both only as top-level columns; null-second unions via a verbatim avro.schema metadata entry, strict_mode only without them")
     .assume("Avro cross-check: apache-avro 0.22 is the independent implementation; map entries compared as sets (apache-avro keeps maps in a HashMap, duplicate keys excluded there); Null columns excluded (finding: [\"null\",\"null\"] union)")
+    .assume("hand-made Avro leg: files come from this check's own encoder (validated against apache-avro on the files apache-avro can iterate); block splitting, negative block counts with byte size and empty file blocks are legal per the Avro 1.11 specification")
     .assume("RFC 8259 leg: serde_json is used as acceptor only; expected numbers come from std str::parse; integer columns only receive integral values (|v| <= 2^53 when spelled with fraction/exponent); duplicate object keys are not generated; invalid documents are limited to classes the decoder documents/implements as errors (surrogates, escapes, literals, truncation, non-UTF-8)")
     .assume("RFC 4180 leg: expected split known by construction; default reader (CRLF/LF/CR record ends, null regex ^$ unless configured); a single-column record consisting of one empty field is always quoted (a blank line is not a record)")
     .sub(Sub::new("grid", 0, 0, grid::sub_grid).enumerate(grid::grid_cases(), grid::grid_cases()))
     .sub(Sub::new("findings", 0, 0, grid::sub_findings).enumerate(grid::FINDINGS, grid::FINDINGS))
-    .sub(Sub::new("csv_roundtrip", 1500, 40000, sub_csv).tape(256, 6000).require(&["needs-quoting", "style:Always", "style:Never", "term:Crlf", "escape-char", "null:sentinel", "no-header", "rows:0"]))
-    .sub(Sub::new("json_roundtrip", 1500, 40000, sub_json).tape(256, 8000).require(&["format:array", "struct:list-only", "explicit-nulls-forced", "nested-null", "needs-escaping", "has:map", "has:decimal", "has:timestamp-tz", "has:binary", "family:runend", "family:fixedlist", "family:listview"]))
-    .sub(Sub::new("avro_roundtrip", 1500, 40000, avro::sub_avro).tape(256, 8000).require(&["codec:Deflate", "codec:Snappy", "codec:Zstd", "codec:Bzip2", "codec:Xz", "codec:None", "framing:soe", "framing:confluent", "framing:apicurio", "null-second", "utf8view", "enum", "uuid", "depth:3", "has:map", "has:decimal", "has:interval"]))
-    .sub(Sub::new("json_rfc8259", 2500, 60000, rfc::sub_json_rfc).tape(256, 8000).require(&["form:array", "form:stream", "surrogate-pair", "number:exponent", "invalid:lone-high-surrogate", "invalid:lone-low-surrogate", "deep-nesting"]))
-    .sub(Sub::new("csv_rfc4180", 2500, 60000, rfc::sub_csv_rfc).tape(128, 4000).require(&["crlf", "lf", "no-final-break", "quoted-quote", "embedded-break", "empty-last-field"]))
-    .sub(Sub::new("avro_cross", 1200, 30000, avro::sub_avro_cross).tape(256, 8000).require(&["arrow->apache:ocf", "arrow->apache:soe", "apache->arrow:ocf", "apache->arrow:soe", "codec:Snappy", "codec:Zstd", "codec:Bzip2", "codec:Xz", "codec:Deflate"]))
+    .sub(Sub::new("csv_roundtrip", 4000, 250000, sub_csv).tape(256, 6000).require(&["needs-quoting", "style:Always", "style:Never", "term:Crlf", "escape-char", "null:sentinel", "no-header", "rows:0"]))
+    .sub(Sub::new("json_roundtrip", 4000, 250000, sub_json).tape(256, 8000).require(&["format:array", "struct:list-only", "explicit-nulls-forced", "nested-null", "needs-escaping", "has:map", "has:decimal", "has:timestamp-tz", "has:binary", "family:runend", "family:fixedlist", "family:listview"]))
+    .sub(Sub::new("avro_roundtrip", 2500, 100000, avro::sub_avro).tape(256, 8000).require(&["codec:Deflate", "codec:Snappy", "codec:Zstd", "codec:Bzip2", "codec:Xz", "codec:None", "framing:soe", "framing:confluent", "framing:apicurio", "null-second", "utf8view", "enum", "uuid", "depth:3", "has:map", "has:decimal", "has:interval"]))
+    .sub(Sub::new("json_rfc8259", 6000, 400000, rfc::sub_json_rfc).tape(256, 8000).require(&["form:array", "form:stream", "surrogate-pair", "number:exponent", "invalid:lone-high-surrogate", "invalid:lone-low-surrogate", "deep-nesting"]))
+    .sub(Sub::new("csv_rfc4180", 6000, 400000, rfc::sub_csv_rfc).tape(128, 4000).require(&["crlf", "lf", "no-final-break", "quoted-quote", "embedded-break", "empty-last-field"]))
+    .sub(Sub::new("avro_cross", 2000, 80000, avro::sub_avro_cross).tape(256, 8000).require(&["arrow->apache:ocf", "arrow->apache:soe", "apache->arrow:ocf", "apache->arrow:soe", "codec:Snappy", "codec:Zstd", "codec:Bzip2", "codec:Xz", "codec:Deflate"]))
+    .sub(Sub::new("avro_handmade", 3000, 120000, hand::sub_avro_handmade).tape(128, 6000).require(&["negative-block-count", "multi-block-collection", "multi-file-block", "empty-file-block", "header-map-blocked", "apache-confirmed"]))
     .run()
 }
